@@ -23,6 +23,7 @@ NamesToFun(ps) == [k \in {ps[i][1] : i \in DOMAIN ps} |-> PairSet(ps[CHOOSE i \i
 
 ActOf(a) ==
     CASE a.op = "reorder" -> [op |-> "reorder", bp |-> a.bp, cp |-> a.cp, rev |-> Range(a.rev)]
+      [] a.op = "embed" -> [op |-> "embed", h |-> a.h, n |-> a.n, r |-> a.r, k |-> a.k]      \* (how the harness built the link objects is not part of the action)
       [] OTHER -> a
 
 Ev(t, i) == Traces[t][i]
